@@ -180,9 +180,20 @@ fn check(case: &SemCase, net: &Net, fs: &[F]) -> Verdict {
             }
             v
         };
-        let b = call_ok!("C04", case, "model_check_multiple_trees_dirty", model_check_multiple_trees_dirty(trees, g));
+        let b = call_ok!("C04", case, "model_check_multiple_trees_dirty", model_check_multiple_trees_dirty(trees.clone(), g));
         if b != batch {
             bad!("C04:tree-batch-differs", "model_check_multiple_trees_dirty differs from the string batch entry point");
+        }
+        // the sanitising plain batch entry points, position by position
+        let c = call_ok!("C04", case, "model_check_multiple_formulae", model_check_multiple_formulae(texts.clone(), g));
+        if c != batch_s {
+            let i = (0..texts.len()).find(|i| c.get(*i) != batch_s.get(*i)).unwrap_or(0);
+            bad!("C04:sanitised-plain-batch-differs", "model_check_multiple_formulae: position {i} `{}` differs from the sanitised result of that formula ({} results for {} formulae)", texts[i.min(texts.len() - 1)], c.len(), texts.len());
+        }
+        let d = call_ok!("C04", case, "model_check_multiple_trees", model_check_multiple_trees(trees, g));
+        if d != batch_s {
+            let i = (0..texts.len()).find(|i| d.get(*i) != batch_s.get(*i)).unwrap_or(0);
+            bad!("C04:sanitised-tree-batch-differs", "model_check_multiple_trees: position {i} `{}` differs from the sanitised result of that formula", texts[i.min(texts.len() - 1)]);
         }
     }
     // permutation / repetition of the batch
